@@ -1,7 +1,7 @@
 CONSTANTS
   EBs = {2, 3, 5}
   ETSs = {1, 2, 3}
-  MaxHeight = 10
+  MaxHeight = 8
   MaxChanges = 2
   GenHist = FALSE
   FixWalk = TRUE
